@@ -96,30 +96,51 @@ Definition sdest_selected (st : sstate) (box : N) : bool :=
   end.
 
 (* --------------------------------------------------------------- APPEND *)
-(* adds one message with the given flags (those the mailbox can store; never
-   \Recent) and the given date, at the next UID *)
-Definition spec_append (st : sstate) (box : N) (fl : fset) (date cid : N) : sstate * out :=
+(* adds the messages, in order, with the given flags (those the mailbox can store;
+   never \Recent) and dates, at the next UIDs.  MULTIAPPEND is all-or-nothing: if
+   storing one of them fails nothing is added (the UIDs tried are not reused) and the
+   connection ends *)
+Fixpoint new_msgs (bk : backend) (perm : fset) (u : N) (recent : bool) (msgs : list amsg)
+  : list msg :=
+  match msgs with
+  | [] => []
+  | a :: r => mkMsg u (storable bk perm (diff (am_flags a) [FRecent])) (am_date a) (am_cid a) recent
+              :: new_msgs bk perm (u + 1) recent r
+  end.
+Fixpoint before_failure (msgs : list amsg) : list amsg :=
+  match msgs with
+  | [] => []
+  | a :: r => if am_fail a then [] else a :: before_failure r
+  end.
+
+Definition spec_append (st : sstate) (box : N) (msgs : list amsg) : sstate * out :=
   match lookup box (sp_boxes st) with
   | None => sreply st NO CTryCreate
   | Some b =>
     if b_ro b then sreply st NO CReadOnly else
+    if existsb am_fail msgs then
+      let b' := mkBox (b_msgs b) (b_maxuid b + N.of_nat (length (before_failure msgs)))
+                      (b_ro b) (b_perm b) (b_uidv b) in
+      (sset st (set_box box b' (sp_boxes st)) None, mkOut BYE CServerBug [])
+    else
     let ds := sdest_selected st box in
-    let u := b_maxuid b + 1 in
-    let m := mkMsg u (storable (sp_bk st) (b_perm b) (diff fl [FRecent])) date cid (negb ds) in
-    let b' := mkBox (b_msgs b ++ [m]) u (b_ro b) (b_perm b) in
+    let new := new_msgs (sp_bk st) (b_perm b) (b_maxuid b + 1) (negb ds) msgs in
+    let b' := mkBox (b_msgs b ++ new) (b_maxuid b + N.of_nat (length msgs)) (b_ro b) (b_perm b)
+                    (b_uidv b) in
     let bs' := set_box box b' (sp_boxes st) in
     match sp_sel st with
-    | None => (sset st bs' None, mkOut OK (CAppendUid u) [])
+    | None => (sset st bs' None, mkOut OK (CAppendUid (uids_of new)) [])
     | Some s =>
       match lookup (ss_box s) (sp_boxes st) with
-      | None => (sset st bs' (Some s), mkOut BYE CNone [])
+      | None => (sset st bs' None, mkOut OK (CAppendUid (uids_of new)) [UBye])
       | Some sb =>
         if ss_box s =? box then
-          let rec := if ds then add_recent u (ss_recent s) else ss_recent s in
+          let rec := if ds then fold_left (fun r u => add_recent u r) (uids_of new) (ss_recent s)
+                     else ss_recent s in
           (sset st bs' (Some (mkSsel (ss_box s) (ss_ro s) rec)),
-           mkOut OK (CAppendUid u)
+           mkOut OK (CAppendUid (uids_of new))
                  (arrivals (ss_recent s) (b_msgs b) rec (b_msgs b') (length (b_msgs b)) false))
-        else (sset st bs' (Some s), mkOut OK (CAppendUid u) [])
+        else (sset st bs' (Some s), mkOut OK (CAppendUid (uids_of new)) [])
       end
     end
   end.
@@ -193,7 +214,7 @@ Definition spec_close (st : sstate) : sstate * out :=
     let st0 := sset st (sp_boxes st) None in
     if ss_ro s then sreply st0 OK CNone else
     match lookup (ss_box s) (sp_boxes st) with
-    | None => sreply st0 NO CNonexistent
+    | None => sreply st0 OK CNone
     | Some b =>
       let l' := filter (fun m => negb (to_expunge (b_msgs b) None m)) (b_msgs b) in
       sreply (sset st (set_box (ss_box s) (set_msgs b l') (sp_boxes st)) None) OK CNone
@@ -201,12 +222,14 @@ Definition spec_close (st : sstate) : sstate * out :=
   end.
 
 (* ----------------------------------------------------------- COPY, MOVE *)
-(* the copies: same flags, date and content as the originals, next UIDs of the
-   destination in the order of the originals *)
-Fixpoint copies_from (u : N) (recent : bool) (src : list msg) : list msg :=
+(* the copies: same flags (those the destination can store), date and content as the
+   originals, next UIDs of the destination in the order of the originals *)
+Fixpoint copies_from (bk : backend) (perm : fset) (u : N) (recent : bool) (src : list msg)
+  : list msg :=
   match src with
   | [] => []
-  | m :: r => mkMsg u (m_flags m) (m_date m) (m_cid m) recent :: copies_from (u + 1) recent r
+  | m :: r => mkMsg u (storable bk perm (m_flags m)) (m_date m) (m_cid m) recent
+              :: copies_from bk perm (u + 1) recent r
   end.
 Definition selected_msgs (uid : bool) (ss : seqset) (l : list msg) : list msg :=
   map snd (filter (fun qm => addressed uid ss l (fst qm) (snd qm)) (enumerate l)).
@@ -217,8 +240,8 @@ Definition scopy_code (src new : list msg) : code :=
 Definition deliver (st : sstate) (s : ssel) (dest : N) (d : mbox) (src : list msg)
   : boxes * list N * list msg :=
   let ds := sdest_selected st dest in
-  let new := copies_from (b_maxuid d + 1) (negb ds) src in
-  let d' := mkBox (b_msgs d ++ new) (b_maxuid d + N.of_nat (length src)) (b_ro d) (b_perm d) in
+  let new := copies_from (sp_bk st) (b_perm d) (b_maxuid d + 1) (negb ds) src in
+  let d' := mkBox (b_msgs d ++ new) (b_maxuid d + N.of_nat (length src)) (b_ro d) (b_perm d) (b_uidv d) in
   (set_box dest d' (sp_boxes st),
    if ds then fold_left (fun r u => add_recent u r) (uids_of new) (ss_recent s) else ss_recent s,
    new).
@@ -326,16 +349,132 @@ Definition spec_fetch (st : sstate) (uid : bool) (ss : seqset) (attrs : list fat
     end
   end.
 
+(* ------------------------------------------------------------ NOOP, CHECK *)
+Definition spec_noop (st : sstate) (check : bool) : sstate * out :=
+  match sp_sel st with
+  | None => if check then sreply st BAD CNone else sreply st OK CNone
+  | Some s =>
+    match lookup (ss_box s) (sp_boxes st) with
+    | None => sreply st NO CNonexistent
+    | Some _ => sreply st OK CNone
+    end
+  end.
+
+(* --------------------------------------------------------------- STATUS *)
+(* MESSAGES, RECENT (the session's own count for its selected mailbox, the stored
+   marks otherwise), UIDNEXT, UIDVALIDITY, UNSEEN *)
+Definition spec_status (st : sstate) (box : N) : sstate * out :=
+  match lookup box (sp_boxes st) with
+  | None => sreply st NO CNonexistent
+  | Some b =>
+    let line r := UStatus box (N.of_nat (length (b_msgs b))) r (b_maxuid b + 1) (b_uidv b)
+                          (count_unseen (b_msgs b)) in
+    match sp_sel st with
+    | None => (st, mkOut OK CNone [line (count_recent (b_msgs b))])
+    | Some s =>
+      match lookup (ss_box s) (sp_boxes st) with
+      | None => (sset st (sp_boxes st) None, mkOut OK CNone [line (count_recent (b_msgs b)); UBye])
+      | Some _ =>
+        (st, mkOut OK CNone [line (if ss_box s =? box then N.of_nat (length (ss_recent s))
+                                   else count_recent (b_msgs b))])
+      end
+    end
+  end.
+
+(* --------------------------------------------------------------- SEARCH *)
+Fixpoint skey_matches (l : list msg) (rec : list N) (q : N) (m : msg) (k : skey) : bool :=
+  let fl := with_recent (m_flags m) (memN (m_uid m) rec) in
+  match k with
+  | KAll => true
+  | KFlag f e => Bool.eqb (mem f fl) e
+  | KNew => mem FRecent fl && negb (mem FSeen fl)
+  | KSet uid ss => addressed uid ss l q m
+  | KNot a => negb (skey_matches l rec q m a)
+  | KOr a b => skey_matches l rec q m a || skey_matches l rec q m b
+  end.
+
+(* the numbers (UIDs for UID SEARCH) of exactly the messages that match every key *)
+Definition spec_search (st : sstate) (uid : bool) (keys : list skey) : sstate * out :=
+  match sp_sel st with
+  | None => sreply st BAD CNone
+  | Some s =>
+    match lookup (ss_box s) (sp_boxes st) with
+    | None => sreply st NO CNonexistent
+    | Some b =>
+      let l := b_msgs b in
+      let hits := filter (fun qm => forallb (skey_matches l (ss_recent s) (fst qm) (snd qm)) keys)
+                         (enumerate l) in
+      (st, mkOut OK CNone [USearch (map (fun qm => if uid then m_uid (snd qm) else fst qm) hits)])
+    end
+  end.
+
+(* ------------------------------------------------ CREATE, DELETE, RENAME *)
+(* a session whose selected mailbox disappears is told BYE *)
+Definition names_done (st : sstate) (bs : boxes) : sstate * out :=
+  match sp_sel st with
+  | None => (sset st bs None, mkOut OK CNone [])
+  | Some s =>
+    match lookup (ss_box s) bs with
+    | None => (sset st bs None, mkOut OK CNone [UBye])
+    | Some _ => (sset st bs (Some s), mkOut OK CNone [])
+    end
+  end.
+
+Definition spec_create (st : sstate) (box uidv : N) : sstate * out :=
+  if box =? INBOX then sreply st NO CNone else
+  match lookup box (sp_boxes st) with
+  | Some _ => sreply st NO CAlreadyExists
+  | None => names_done st (sp_boxes st ++ [(box, new_box (sp_bk st) uidv)])
+  end.
+
+Definition spec_delete (st : sstate) (box : N) : sstate * out :=
+  if box =? INBOX then sreply st NO CNone else
+  match lookup box (sp_boxes st) with
+  | None => sreply st NO CNonexistent
+  | Some _ => names_done st (del_box box (sp_boxes st))
+  end.
+
+(* the mailbox, with its messages, UIDs, UIDVALIDITY and read-only bit, gets the new
+   name; renaming INBOX leaves a new empty INBOX behind (maildir refuses) *)
+Definition spec_rename (st : sstate) (from to uidv : N) : sstate * out :=
+  if to =? INBOX then sreply st NO CNone else
+  if (from =? INBOX) && match sp_bk st with Maildir => true | Dict => false end
+  then sreply st NO CCannot else
+  match lookup from (sp_boxes st) with
+  | None => sreply st NO CNonexistent
+  | Some b =>
+    match lookup to (sp_boxes st) with
+    | Some _ => sreply st NO CAlreadyExists
+    | None =>
+      if from =? INBOX then
+        let bs' := set_box INBOX (new_box Dict uidv) (sp_boxes st) ++ [(to, b)] in
+        match sp_sel st with
+        | Some s => if ss_box s =? INBOX
+                    then (sset st bs' (Some (mkSsel GONE (ss_ro s) (ss_recent s))), mkOut OK CNone [])
+                    else names_done st bs'
+        | None => names_done st bs'
+        end
+      else names_done st (del_box from (sp_boxes st) ++ [(to, b)])
+    end
+  end.
+
 Definition spec_step (st : sstate) (c : cmd) : sstate * out :=
   match c with
   | CSelect box ro => spec_select st box ro
-  | CAppend box fl date cid => spec_append st box fl date cid
+  | CAppend box msgs => spec_append st box msgs
   | CStore uid ss op silent fl => spec_store st uid ss op silent fl
   | CExpunge us => spec_expunge st us
   | CCopy uid ss dest => spec_copy st uid ss dest
   | CMove uid ss dest => spec_move st uid ss dest
   | CFetch uid ss attrs => spec_fetch st uid ss attrs
   | CClose => spec_close st
+  | CNoop => spec_noop st false
+  | CCheck => spec_noop st true
+  | CStatus box => spec_status st box
+  | CSearch uid keys => spec_search st uid keys
+  | CCreate box uidv => spec_create st box uidv
+  | CDelete box => spec_delete st box
+  | CRename from to uidv => spec_rename st from to uidv
   end.
 
 Fixpoint spec_run (st : sstate) (prog : list cmd) : sstate * list out :=
